@@ -2,6 +2,7 @@ package checks
 
 import (
 	"fmt"
+	"github.com/hyperjumptech/grule-rule-engine/ast"
 	"sort"
 	"strings"
 	"time"
@@ -124,10 +125,16 @@ func C10(rep *ev.Reporter, tier string) {
 			return `Retract("Unknown")`
 		case "C":
 			return "Complete()"
+		case "H":
+			return "F.Hook(1)" // a fact method that adds two more facts to the RUNNING data context
 		}
 		panic(code)
 	}
 	codes := []string{"a", "Rs", "Ro", "Ru", "C", "Ro2"}
+	hook := func(dc ast.IDataContext, id int64) {
+		dc.Add("Extra", facts.New())
+		dc.AddJSON("ExtraJ", []byte(`{"a":1}`))
+	}
 	var seqs [][]string
 	var rec func(cur []string)
 	rec = func(cur []string) {
@@ -137,12 +144,12 @@ func C10(rep *ev.Reporter, tier string) {
 		if len(cur) == maxLen {
 			return
 		}
-		for _, c := range codes[:5] {
+		for _, c := range append(append([]string{}, codes[:5]...), "H") {
 			rec(append(cur, c))
 		}
 	}
 	rec(nil)
-	small := [][]string{{"a"}, {"Rs"}, {"a", "Ro"}, {"Ro", "a"}, {"C", "a"}, {"a", "Rs"}, {"Ru", "a"}, {"Ro", "Ro"}}
+	small := [][]string{{"a"}, {"Rs"}, {"a", "Ro"}, {"Ro", "a"}, {"C", "a"}, {"a", "Rs"}, {"Ru", "a"}, {"Ro", "Ro"}, {"C", "H", "a"}}
 	mk := func(name string, others []string, seq []string, sal *int64) *grl.Rule {
 		var acts []string
 		for _, c := range seq {
@@ -159,7 +166,7 @@ func C10(rep *ev.Reporter, tier string) {
 			for i, q1 := range seqs {
 				for j, q2 := range small {
 					emit(Case{ID: fmt.Sprintf("c10/k2/%d.%d/hi%v", i, j, salHi), Rules: []*grl.Rule{mk("r1", []string{"r2"}, q1, s1), mk("r2", []string{"r1"}, q2, nil)},
-						Worlds: []func() *ref.World{world}, WorldNames: []string{"zero"}, Opts: hx.RunOpts{MaxCycle: 8}, Reuse: true,
+						Worlds: []func() *ref.World{world}, WorldNames: []string{"zero"}, Opts: hx.RunOpts{MaxCycle: 8, OnHook: hook}, Reuse: true,
 						Meta: map[string]string{"r1": strings.Join(q1, ","), "r2": strings.Join(q2, ",")}})
 				}
 			}
@@ -176,7 +183,7 @@ func C10(rep *ev.Reporter, tier string) {
 					for k, q3 := range small[:4] {
 						emit(Case{ID: fmt.Sprintf("c10/k3/%d.%d.%d/hi%v", i, j, k, salHi),
 							Rules:  []*grl.Rule{mk("r1", []string{"r2", "r3"}, q1, s1), mk("r2", []string{"r3", "r1"}, q2, nil), mk("r3", []string{"r1", "r2"}, q3, nil)},
-							Worlds: []func() *ref.World{world}, WorldNames: []string{"zero"}, Opts: hx.RunOpts{MaxCycle: 8},
+							Worlds: []func() *ref.World{world}, WorldNames: []string{"zero"}, Opts: hx.RunOpts{MaxCycle: 8, OnHook: hook},
 							Meta: map[string]string{"r1": strings.Join(q1, ","), "r2": strings.Join(q2, ","), "r3": strings.Join(q3, ",")}})
 					}
 				}
@@ -184,5 +191,5 @@ func C10(rep *ev.Reporter, tier string) {
 		}
 	}
 	RunFamily(rep, gen, 20000, bud, judgeC10)
-	rep.Coverage["rule"] = "every rule set of 2 rules (r1: every action list of length <= 2 (thorough 3) over {assignment, Retract(self), Retract(other), Retract(\"Unknown\"), Complete()}; r2: 8 lists) and of 3 rules (r1: every list of length <= 2 incl. Retract(second other); r2: 6, r3: 4 lists), equal saliences and r1 dominant, every rule order at every cycle; every 2-rule run additionally as the second Execute of one instance (new data context and facts). Oracle: model retract set / complete flag followed along the trace: a retracted rule is never evaluated or fired again in the run, every other rule is evaluated in every cycle with the status of its fresh evaluation, an unknown name changes nothing, all actions of the rule (also those after Retract/Complete) run, no cycle begins after Complete and Execute returns nil. Non-trivial: a Retract of an existing rule followed by a further cycle, or a Complete."
+	rep.Coverage["rule"] = "every rule set of 2 rules (r1: every action list of length <= 2 (thorough 3) over {assignment, Retract(self), Retract(other), Retract(\"Unknown\"), Complete(), a fact method that adds facts to the running data context}; r2: 8 lists) and of 3 rules (r1: every list of length <= 2 incl. Retract(second other); r2: 6, r3: 4 lists), equal saliences and r1 dominant, every rule order at every cycle; every 2-rule run additionally as the second Execute of one instance (new data context and facts). Oracle: model retract set / complete flag followed along the trace: a retracted rule is never evaluated or fired again in the run, every other rule is evaluated in every cycle with the status of its fresh evaluation, an unknown name changes nothing, all actions of the rule (also those after Retract/Complete) run, no cycle begins after Complete and Execute returns nil. Non-trivial: a Retract of an existing rule followed by a further cycle, or a Complete."
 }
